@@ -373,11 +373,11 @@ func C02(c *core.Ctx) {
 					return false
 				}
 				root, path := core.FieldPath(ia.X)
-				return root == pkt && strings.Join(path, ".") == "L3.Interest.ForwardingHintV.Names"
+				return core.Same(root, pkt) && strings.Join(path, ".") == "L3.Interest.ForwardingHintV.Names"
 			}
 			isProdAtom := atomCallTrue("is-producer-region", callIs(core.CalleeID{Pkg: "fw/table", Recv: "*", Name: "IsProducer"}))
 			prodTrueTargets := map[*ssa.BasicBlock]bool{}
-			for _, f := range core.EdgeFacts(pii, isProdAtom) {
+			for _, f := range core.EdgeFactsDeep(pii, isProdAtom) {
 				if f.Holds {
 					prodTrueTargets[f.E.To] = true
 				}
@@ -409,18 +409,20 @@ func C02(c *core.Ctx) {
 				}
 				return 0, 0
 			}}
-			cutNotReaching, perR := core.CutEdges(pii, neg(reaching))
+			cutNotReaching, perR := core.CutEdgesDeep(pii, neg(reaching))
 			for _, ci := range core.FindCallsDeep(pii, idFindNextHops) {
 				_, fargs := core.CallArgs(ci.Common())
+				restoreRoot := core.WithRoot(pii)
 				flows := core.FlowPath(fargs[0], ci, isHintName, cutNotReaching, nil)
 				flowsAtAll := core.FlowPath(fargs[0], ci, isHintName, nil, nil)
+				restoreRoot()
 				c.Decide(!flows && perR[0] > 0 && flowsAtAll, "R2.3", "hint-lookup-only-outside-producer-region", c.Pos(ci),
 					"a forwarding-hint name reaches the FIB lookup only through the edge asserting that no hint name lies in the producer region",
 					fmt.Sprintf("a forwarding-hint name can be used for the FIB lookup although a hint name lies in this forwarder's producer region (the hint is not discarded on that path), or the hint is never used [flow avoiding ¬reaching edges=%v, ¬reaching edges=%d, hint flows at all=%v]", flows, perR[0], flowsAtAll))
 			}
 			// forwarding hint used for lookup only outside the producer region
 			isProd := atomCallTrue("is-producer-region", callIs(core.CalleeID{Pkg: "fw/table", Recv: "*", Name: "IsProducer"}))
-			facts := core.EdgeFacts(pii, isProd)
+			facts := core.EdgeFactsDeep(pii, isProd)
 			c.Decide(len(facts) > 0, "R2.3", "hint-producer-region-test", p.Pos(pii.Pos()), "forwarding hint names are tested with NetworkRegion.IsProducer", "no NetworkRegion.IsProducer test on forwarding-hint names in processIncomingInterest")
 		}
 	}
